@@ -23,6 +23,7 @@ func main() {
 	out := flag.String("out", "", "trace file")
 	from := flag.Int("from", 0, "skip the first k scenarios")
 	tid0 := flag.Int("tid0", 0, "trace id offset")
+	tags := flag.Bool("tags", false, "print the slot-name -> hash-tag dictionary for the configuration and exit")
 	flag.Parse()
 	f, err := os.Open(*scen)
 	if err != nil {
@@ -45,6 +46,16 @@ func main() {
 	cfg := hdr.Cfg
 	if cfg.Mode == "" {
 		cfg.Mode = "step"
+	}
+	if *tags {
+		cl, err := hx.NewCluster(&cfg, nil)
+		if err != nil {
+			fmt.Fprintln(os.Stderr, "HARNESS-ERROR:", err)
+			os.Exit(4)
+		}
+		b, _ := json.Marshal(cl.TagOf)
+		fmt.Println(string(b))
+		return
 	}
 	w, err := hx.NewWorker(&cfg, *out)
 	if err != nil {
